@@ -107,6 +107,7 @@ def run(ctx):
         terms.append("(probe_ok %s %s %s %s)" % (prog.c_ops(p), prog.c_sm(snaps[0]), core.qi(f0), core.qi(z0)))
         meta.append(("nest", p))
     nestD_stream(ctx, 25 if quick else 600)
+    nest_corr_stream(ctx, 30 if quick else 800)
     # (a') a '*' group reused as the left operand of two products must not change
     for i in range(15 if quick else 300):
         p = prog.gen_program(ctx.rng, maxlen=4, init_p=0.0, global_nmax_p=0.0, kinds=["scalar", "matrix", "shift", "spoil"])
@@ -350,6 +351,82 @@ def nestD_stream(ctx, n):
                        signature={"why": "nesting-hessian"})
 
 
+HEADER_N = dprog.HEADER + """From EPG Require Import NestD.
+Notation DLeaf := (@DLeaf QIops). Notation DNode := (@DNode QIops). Notation DMulti := (@DMulti QIops).
+Definition chk_tree (t : dtree QIops) (pd : QI) (m : sm QIops) (o1 : list (nat * sm QIops)) (o2 : list ((nat*nat) * sm QIops)) : bool :=
+  dstate_eqb (drun_tree QIops t (@dinit QIops (@init QIops pd))) m o1 o2.
+"""
+
+
+def c_tree(struct, leaf):
+    """Gallina dtree of a nest() structure whose leaves are dprog operations"""
+    parts = []
+    for it in struct:
+        if isinstance(it, tuple) and it[0] == "mul":
+            parts.append("(DMulti %s)" % core.clist([c_tree([x], leaf) for x in it[1]]))
+        elif isinstance(it, list):
+            parts.append("(DNode %s)" % core.clist([c_tree([x], leaf) for x in it]))
+        else:
+            parts.append("(DLeaf %s)" % leaf(it))
+    return parts[0] if len(parts) == 1 else "(DNode %s)" % core.clist(parts)
+
+
+def nest_corr_stream(ctx, n):
+    """synthetic differentiable programs written as nested lists / '*' groups and applied BY HAND ('*' groups called as
+    operators): the final state and all partials vs the model's drun_tree (= drun of the flat program by theorem
+    C10_nested_eq_flat_with_partials), exactly"""
+    import epgpy as epg
+    terms, meta = [], []
+    for i in range(n):
+        p = dprog.gen_dprogram(ctx.rng, with_order2=(i % 2 == 0), plain=("spoil", "wait", "pd", "reset"))
+        if len(p["ops"]) < 2:
+            continue
+        struct = nest(ctx.rng, list(range(len(p["ops"]))))
+
+        def build(st):
+            out = []
+            for it in st:
+                if isinstance(it, tuple) and it[0] == "mul":
+                    members = epg.functions.flatten_sequence(build(it[1]))
+                    out.append(epg.operator.MultiOperator(members))
+                elif isinstance(it, list):
+                    out.append(build(it))
+                else:
+                    out.append(dprog.build(p["ops"][it]))
+            return out
+
+        def by_hand(items, sm):
+            for it in items:
+                sm = by_hand(it, sm) if isinstance(it, list) else it(sm, inplace=True)
+            return sm
+        try:
+            snap = dprog.snap_d(by_hand(build(struct), epg.StateMatrix(density=p["pd"])))
+        except ValueError as e:
+            if "Invalid variable pair" in str(e):
+                continue
+            ctx.report("nested synthetic program applied by hand raised ValueError: %s" % str(e)[:200], {"dcase": repr(p), "structure": repr(struct)}, found_input=True,
+                       signature={"raises": "ValueError", "site": "nest-corr"})
+            continue
+        except Exception as e:
+            ctx.report("nested synthetic program applied by hand raised %s: %s" % (type(e).__name__, str(e)[:200]), {"dcase": repr(p), "structure": repr(struct)},
+                       found_input=True, signature={"raises": type(e).__name__, "site": "nest-corr"})
+            continue
+        m, o1, o2 = snap
+        terms.append("(chk_tree %s %s %s %s %s)" % (c_tree(struct, lambda j: dprog.c_dinstr(p["ops"][j])), core.qi(p["pd"]), prog.c_sm(m),
+                                                    dprog.c_assoc(o1, lambda v: "%d%%nat" % dprog.vrank(v)), dprog.c_assoc(o2, lambda k: dprog.c_pair(k, dprog.vrank))))
+        meta.append((p, struct))
+        ctx.count(("nestcorr", repr(p), repr(struct)), nontrivial=True)
+    verdicts, errors = ctx.run_bool_cases("nest", HEADER_N, terms, chunk=6)
+    for e in errors:
+        ctx.report("correspondence shard failed to evaluate", {"theorem_or_correspondence": "C10 nested correspondence (Proofs/NestD.v drun_tree)", "coq_output": e}, found_input=False)
+    nb = 0
+    for (p, struct), v in zip(meta, verdicts):
+        if v is False and nb < 3:
+            nb += 1
+            ctx.report("nested / grouped synthetic program applied by hand disagrees with the model drun_tree", {"dcase": repr(p), "structure": repr(struct),
+                       "theorem_or_correspondence": "C10 nested correspondence Proofs/NestD.v vs epgpy"}, found_input=False)
+
+
 def same_partials(a, b):
     if set(a) != set(b):
         return False
@@ -380,6 +457,20 @@ def partial_oracle(ctx, n):
             v = sorted(o1["order1"])[0]
             o1["order2_arg"], o1["order2"], o1["auto"] = [(v, v)], {(v, v): {}}, False
             o2["order1_arg"], o2["order1"], o2["order2_arg"], o2["order2"] = None, {}, None, {}
+        if i % 8 in (1, 5):
+            # an operand that leaves the states unchanged at this parameter value (P at g = 0, E at tau = 0: arrays equal to
+            # one, no recovery term) but whose derivative arrays are not zero and whose parameters are declared
+            tgt = o2 if i % 8 == 1 else o1
+            for o in (o1, o2):
+                while o["kind"] != "scalar":
+                    o.update(dprog.gen_dop(ctx.rng, with_order2=w2))
+            tgt["lin"] = {"kind": "scalar", "arr": [1 + 0j, 1 + 0j, 1 + 0j], "arr0": None}
+            for l in list(tgt["darrs"].values()) + list(tgt["d2arrs"].values()):
+                l["arr0"] = None
+            while (not tgt["order1"]) or isinstance(tgt["order1_arg"], dict):
+                tgt["order1_arg"], tgt["order1"] = dprog.gen_order1(ctx.rng, sorted(tgt["darrs"]))
+            if not w2:
+                tgt["order2_arg"], tgt["order2"] = None, {}
         # like the real operators (T, Phi, E, P, R), keep derivative arrays only for the activated parameters
         for o in (o1, o2):
             act = {p_ for cs in o["order1"].values() for p_ in cs}
